@@ -203,6 +203,7 @@ def check(tier, seed):
     with C.WorkDir('C07') as wd:
         C.audit_sources()
         C.props_obligations(res, 'C07gen', wd)
+        C.tie_b_items(res, wd)
         gen_lines = list(res.assumption_lines)
         tb = C.tie_b(res, wd)
         rng = C.rng_for(seed, 'C07')
